@@ -272,19 +272,22 @@ func (u *Unit) entryHeapAxioms(name string, h Term) {
 	switch {
 	case es == SRef:
 		r := u.D.Bound("r", SRef)
-		u.D.Axiom("closed:"+name, Forall([]Term{r}, App("<=", SBool, App("birth", SInt, Select(h, r)), IntLit(0)), []Term{Select(h, r)}).S)
+		old := le(App("birth", SInt, r), IntLit(0))
+		u.D.Axiom("closed:"+name, Forall([]Term{r}, Imp(old, App("<=", SBool, App("birth", SInt, Select(h, r)), IntLit(0))), []Term{Select(h, r)}).S)
 	case es == SSlice:
 		r := u.D.Bound("r", SRef)
-		u.D.Axiom("closed:"+name, Forall([]Term{r}, App("<=", SBool, App("birth", SInt, App("s_base", SRef, Select(h, r))), IntLit(0)), []Term{Select(h, r)}).S)
+		old := le(App("birth", SInt, r), IntLit(0))
+		u.D.Axiom("closed:"+name, Forall([]Term{r}, Imp(old, App("<=", SBool, App("birth", SInt, App("s_base", SRef, Select(h, r))), IntLit(0))), []Term{Select(h, r)}).S)
 	case strings.HasPrefix(string(es), "(Array Int "):
 		inner := arrElemSort(es)
 		r := u.D.Bound("r", SRef)
 		i := u.D.Bound("i", SInt)
 		cell := Select(Select(h, r), i)
+		old := le(App("birth", SInt, r), IntLit(0))
 		if inner == SRef {
-			u.D.Axiom("closed:"+name, Forall([]Term{r, i}, App("<=", SBool, App("birth", SInt, cell), IntLit(0)), []Term{cell}).S)
+			u.D.Axiom("closed:"+name, Forall([]Term{r, i}, Imp(old, App("<=", SBool, App("birth", SInt, cell), IntLit(0))), []Term{cell}).S)
 		} else if inner == SSlice {
-			u.D.Axiom("closed:"+name, Forall([]Term{r, i}, And(App("<=", SBool, App("birth", SInt, App("s_base", SRef, cell)), IntLit(0)), u.validSliceT(cell)), []Term{cell}).S)
+			u.D.Axiom("closed:"+name, Forall([]Term{r, i}, Imp(old, And(App("<=", SBool, App("birth", SInt, App("s_base", SRef, cell)), IntLit(0)), u.validSliceT(cell))), []Term{cell}).S)
 		}
 	}
 }
@@ -1389,6 +1392,7 @@ func (u *Unit) exitSummary(e *Env, blk *Block, cut int, lname string, pos token.
 		for _, c := range u.splitClause(c0) {
 			t := u.specExpr(c, e, nil)
 			u.assert(e, fmt.Sprintf("%s/after/%s", lname, c.Label), "inv-exit", pos, c.Text, t)
+			e.assume(t) // later clauses may build on earlier ones (lemma chain)
 			keep = append(keep, t)
 		}
 	}
